@@ -31,10 +31,14 @@ PROP_ID = "C17"
 DESIGN_REF = "6/C17"
 LEVEL_TEXT = "partial"
 LEVEL_NOTE = (
-    "proof for the modelled cores (DefinitionsMapper, detect_lazy_namespace, Config.from_service, "
-    "Client.prepare_headers/prepare_payload/send, DefaultTransport.handle_response); XML rendering/parsing of the "
-    "envelope classes is C01's model and is only exercised end to end here (oracle), the schema half of the "
-    "pipeline (SchemaMapper, class processing other than the lazy-namespace decision) is not modelled"
+    "proof for the modelled cores (DefinitionsMapper, the late namespace decision, Config.from_service, "
+    "Client.prepare_headers/prepare_payload/send, DefaultTransport.handle_response) and, tied to C01's writer and "
+    "parser model, for the request document: the envelope class family (Envelope/Header/Body/Fault/detail) is "
+    "modelled down to the XmlMeta the binding layer sees (rendering + XmlMetaBuilder, compared with the real "
+    "generated classes) and request_document_shape proves that a request written and read back has exactly the "
+    "prescribed Header/Body children. Payload classes (the schema half: SchemaMapper and class processing other "
+    "than the late namespace decision) enter as arbitrary classes of C01's fragment F1; the code is as repaired by "
+    "repo-patches/c17c-01, c17c-02 (pending); one finding (rpc response wrapper name) stays listed"
 )
 TRUSTED = [
     "DefinitionsParser/XmlParser populate Definitions (ns_map, location, QName-valued wildcard attributes) as recorded by harness/wsdlgen.defs_to_record; the model starts from that record",
@@ -48,6 +52,7 @@ ASSUMPTIONS = [
     "a document-style part declared by type has no wire name prescribed by WSDL 1.1 (the body *is* of that type); the property's reading 'typed parts -> part name' is used, namespace unchecked",
     "the rpc response wrapper is named <operation>Response (WS-I BP 1.1 R2729; WSDL 1.1 3.5 read literally says <operation>); either is accepted by the full-strength statement",
     "names are non-empty strings; split_qname('') (IndexError in the code) is outside the model",
+    "Wsdl/Binding.lean names vars and classes by their XML names (python identifiers are C07's subject); the real export is renamed accordingly by harness/wsdlbind.py",
 ]
 RULE = "hand-picked (upstream fixtures, every branch), bounded-exhaustive decision tables, seeded random specs parsed by the real DefinitionsParser, mutated (dangling/malformed) records; non-trivial = reaches a non-default branch (see distribution)"
 
@@ -255,7 +260,7 @@ def gen_map(rng, tier):
         yield {"defs": r}
         for _ in range(6):
             yield {"defs": mutate_record(rng, r)}
-    for i in range(n_cases(tier, 110, 3000)):
+    for i in range(n_cases(tier, 110, 7000)):
         s = G.gen_spec(rng, oneway=0.1)
         if rng.random() < 0.2:
             s["transport"] = rng.choice([None, "http://other", SOAP + "/"])
@@ -306,6 +311,181 @@ def nontrivial_map(a, o):
 
 
 # ======================================================================
+# wsdl.envmeta — the envelope class family as binding metadata (C17 <-> C01)
+# ======================================================================
+_FAMILY_CACHE: dict = {}
+
+
+def families_of(spec):
+    """run the real pipeline once per spec; per (operation, direction): the raw mapper class of the
+    envelope, the TypeInfo records, and the real exported XmlMeta family of the generated classes"""
+    import codegen_run as CG
+    import wsdlbind as WB
+    from xsdata.codegen.mappers.definitions import DefinitionsMapper
+
+    key = json.dumps(spec, sort_keys=True)
+    if key in _FAMILY_CACHE:
+        return _FAMILY_CACHE[key]
+    out = {}
+    files = G.render(spec)
+    g = CG.run_pipeline(files, entry=["svc.wsdl"])
+    try:
+        if g.error is not None:
+            out["error"] = f"{type(g.error).__name__}: {g.error}"
+        else:
+            d = G.parse_definitions(files["svc.wsdl"])
+            classes = DefinitionsMapper.map(d)
+            names = {id(c): c.qname for c in classes}
+            raw = {c.qname: G.canon_class(c, names) for c in classes if c.meta_name}
+            services = {}
+            for mod in g.modules.values():
+                for k, v in vars(mod).items():
+                    if isinstance(v, type) and hasattr(v, "input") and not dataclasses.is_dataclass(v):
+                        services[k.lower()] = v
+            for i, op in enumerate(spec["ops"]):
+                svc = services.get((spec["pt"] + op["name"]).lower())
+                for direction, sfx in (("in", "input"), ("out", "output")):
+                    if op.get(direction) is None or svc is None:
+                        continue
+                    env_id = f"{{{spec['tns']}}}{spec['pt']}_{op['name']}_{sfx}"
+                    env_json = raw.get(env_id)
+                    env_cls = getattr(svc, sfx, None)
+                    if env_json is None or env_cls is None:
+                        out[(i, direction)] = {"error": "no envelope"}
+                        continue
+                    pns = [None, ENV]
+                    for x in (spec["xns"], spec["tns"], op.get("body_ns")):
+                        if x and x not in pns:
+                            pns.append(x)
+                    try:
+                        family = WB.Family(env_cls, env_id, pns)
+                        fam = family.export()
+                        types = WB.type_infos(g, env_json, spec)
+                        rec = {"env": env_json, "types": types, "real": fam, "pns": pns}
+                        out[(i, direction)] = rec
+                    except Exception as e:  # noqa: BLE001
+                        out[(i, direction)] = {"error": f"{type(e).__name__}: {e}"}
+                        continue
+                    # a fully populated instance, its canonical value and the names of the document the real
+                    # serializer writes for it
+                    try:
+                        from xsdata.formats.dataclass.serializers import XmlSerializer
+
+                        inst = fill(env_cls, Counter())
+                        rec["payload"] = family.export_payload()
+                        rec["value"] = family.to_val(inst)
+                        rec["shape"] = WB.xml_names(XmlSerializer().render(inst))
+                    except Exception as e:  # noqa: BLE001
+                        rec["value_error"] = f"{type(e).__name__}: {e}"
+    finally:
+        g.close()
+    if len(_FAMILY_CACHE) > 400:
+        _FAMILY_CACHE.clear()
+    _FAMILY_CACHE[key] = out
+    return out
+
+
+def typify(rng, spec):
+    """turn some body parts given by element into parts given by a complex or builtin type
+    (late namespace decision, native types) — not the parts bound to headers or faults"""
+    for op in spec["ops"]:
+        bound = {h["part"] for h in op.get("in_headers", []) + op.get("out_headers", []) if h["msg"]["name"] in (op["in"]["name"], (op.get("out") or {}).get("name"))}
+        for m in (op["in"], op.get("out")):
+            if m is None:
+                continue
+            for p in m["parts"]:
+                if p["kind"] == "element" and p["name"] not in bound and rng.random() < 0.5:
+                    p["kind"] = "type"
+                    p["ref"] = rng.choice(["T" + p["ref"][1:], "T" + p["ref"][1:], "xsd:string", "xsd:int"])
+    return spec
+
+
+def family_specs(rng, tier):
+    specs = [s for s in hand_specs() if in_fragment(s)]
+    for _ in range(n_cases(tier, 45, 500)):
+        s = G.gen_spec(rng, nops=rng.choice([1, 2, 3]), simple_ok=rng.random() < 0.3)
+        if rng.random() < 0.3:
+            s = typify(rng, s)
+        specs.append(s)
+    return specs
+
+
+def gen_envmeta(rng, tier):
+    specs = family_specs(rng, tier)
+    for spec in specs:
+        fams = families_of(spec)
+        for k, v in fams.items():
+            if k == "error" or "error" in v:
+                continue
+            yield {"spec": spec, "op": k[0], "dir": k[1], "env": v["env"], "types": v["types"], "pns": v["pns"]}
+
+
+def impl_envmeta(a):
+    fams = families_of(a["spec"])
+    v = fams.get((a["op"], a["dir"]))
+    if v is None or "error" in v:
+        return err("HARNESS:" + str(fams.get("error") or (v or {}).get("error")))
+    if any(t["kind"] != "complex" for t in a["types"]):
+        # simple types / enumerations / missing types: copy_attribute_properties etc. are not in this model
+        return err("unsupported")
+    return ok(v["real"])
+
+
+def gen_reqshape(rng, tier):
+    import wsdlbind as WB
+
+    specs = family_specs(rng, tier)
+    dts = WB.datatypes()
+    for spec in specs:
+        fams = families_of(spec)
+        for k, v in fams.items():
+            if k == "error" or "error" in v or "value" not in v:
+                continue
+            yield {"spec": spec, "op": k[0], "dir": k[1], "env": v["env"], "types": v["types"], "pns": v["pns"],
+                   "payload": v["payload"], "datatypes": dts, "value": v["value"]}
+
+
+def impl_reqshape(a):
+    fams = families_of(a["spec"])
+    v = fams.get((a["op"], a["dir"]))
+    if v is None or "shape" not in v:
+        return err("HARNESS:" + str((v or {}).get("value_error") or (v or {}).get("error")))
+    if any(t["kind"] != "complex" for t in a["types"]):
+        return err("unsupported")
+    return ok({"shape": v["shape"]})
+
+
+def canon_reqshape(o):
+    # the hypotheses' truth value and the parse-back flag are reported in the distribution, the names are compared
+    if isinstance(o, dict) and "ok" in o:
+        return {"ok": {"shape": o["ok"]["shape"]}}
+    return o
+
+
+def compare_reqshape(m, i, a):
+    if "ok" in i and "ok" in m:
+        # where the theorem's hypotheses hold the model must also parse its own document back
+        if m["ok"]["f1"] and not m["ok"]["parsed_back"]:
+            return False
+        return m["ok"]["shape"] == i["ok"]["shape"]
+    return m == i
+
+
+def classify_envmeta(a, o):
+    if "err" in o:
+        return "err:" + o["err"]
+    spec, op = a["spec"], a["spec"]["ops"][a["op"]]
+    tags = [G.effective_style(spec, op), a["dir"]]
+    if any(c["id"].endswith("/Header") for c in o["ok"]):
+        tags.append("hdr")
+    if any(c["id"].endswith("/detail") for c in o["ok"]):
+        tags.append("detail")
+    if any(at["namespace"] == "##lazy" for i in a["env"]["inner"] for at in i["attrs"]):
+        tags.append("typed")
+    return "+".join(tags)
+
+
+# ======================================================================
 # wsdl.config
 # ======================================================================
 KEYS = ["style", "transport", "location", "soapAction", "verb", "{urn:q}style", "{urn:q}required", "abcde", "edcba", "URI", "x"]
@@ -334,7 +514,7 @@ def gen_config(rng, tier):
                 "port": [{"qname": "{s}p", "attrs": [["style", "" if empty else "P"]]}] if m & 2 else [],
                 "operation": [{"qname": "{s}o", "attrs": [["style", "" if empty else "O"]]}] if m & 4 else [],
             }
-    for _ in range(n_cases(tier, 300, 5000)):
+    for _ in range(n_cases(tier, 300, 30000)):
         yield {"binding": rand_exts(rng, rng.randint(0, 3)), "port": rand_exts(rng, rng.randint(0, 2)), "operation": rand_exts(rng, rng.randint(0, 2))}
 
 
@@ -386,7 +566,7 @@ def gen_parts(rng, tier):
             for nm in NSMAPS:
                 if rng.random() < (0.5 if tier == "quick" else 1.0):
                     yield {"parts": [{"name": "p", "type": t, "element": e, "ns_map": nm}], "ns_map": [["a", "b"]]}
-    for _ in range(n_cases(tier, 150, 3000)):
+    for _ in range(n_cases(tier, 150, 30000)):
         parts = [{"name": f"p{i}", "type": rng.choice(refs), "element": rng.choice(refs), "ns_map": _dedupe(rng.choice(NSMAPS) + rng.choice([[], [["k", "v"]], [["ty", "urn:over"]]]))} for i in range(rng.randint(0, 4))]
         yield {"parts": parts, "ns_map": rng.choice(NSMAPS)}
 
@@ -466,7 +646,7 @@ def gen_client_config(rng, tier):
     vals = [None, "", "document", "rpc", SOAP, "http://h", "In", "Out", "utf-8"]
     yield {"obj": [["style", "rpc"], ["location", "http://h"], ["transport", SOAP], ["input", "In"], ["output", "Out"]], "kwargs": []}
     yield {"obj": [["style", "rpc"], ["location", "http://h"], ["transport", SOAP], ["soap_action", "a"], ["input", "In"], ["output", "Out"]], "kwargs": [["location", "http://other"], ["soap_action", None], ["encoding", "utf-8"]]}
-    for _ in range(n_cases(tier, 200, 3000)):
+    for _ in range(n_cases(tier, 200, 20000)):
         o = {rng.choice(fields): rng.choice(vals) for _ in range(rng.randint(0, 7))}
         k = {rng.choice(fields): rng.choice(vals) for _ in range(rng.randint(0, 4))}
         yield {"obj": [[a, b] for a, b in o.items()], "kwargs": [[a, b] for a, b in k.items()]}
@@ -497,7 +677,7 @@ def rand_config(rng):
     return {
         "style": rng.choice(["document", "rpc", None]),
         "location": rng.choice(["http://h/svc", None, ""]),
-        "transport": rng.choice([SOAP, SOAP, SOAP, None, "", "http://other", SOAP + "/", SOAP.upper()]),
+        "transport": rng.choice([SOAP] * 10 + [None, "", "http://other", SOAP + "/", SOAP.upper()]),
         "soap_action": rng.choice([None, "", "urn:a", "http://t/Add"]),
         "input": "In",
         "output": rng.choice(["Out", None]),
@@ -511,7 +691,7 @@ def gen_client_headers(rng, tier):
             for h in [[], [["content-type", "x"]], [["SOAPAction", "user"]], [["X-A", "1"], ["SOAPAction", "user"], ["content-type", "y"], ["Content-Type", "z"]]]:
                 c = {"style": "document", "location": "l", "transport": t, "soap_action": act, "input": "In", "output": "Out", "encoding": None}
                 yield {"config": c, "headers": h}
-    for _ in range(n_cases(tier, 200, 3000)):
+    for _ in range(n_cases(tier, 200, 20000)):
         yield {"config": rand_config(rng), "headers": rand_headers(rng)}
 
 
@@ -555,6 +735,9 @@ def impl_client_headers(a):
         return err("LEAK:" + type(e).__name__)
     if h != before or list(h) != list(before):
         return err("MUTATED-INPUT")
+    # shared state: the same client asked again (also with its own previous result) answers the same
+    if client.prepare_headers(h) != r or client.prepare_headers(dict(r)) != r:
+        return err("STATEFUL")
     return ok([[k, v] for k, v in r.items()])
 
 
@@ -599,8 +782,8 @@ def gen_client_send(rng, tier):
             for enc in [None, "", "utf-8"]:
                 c = {"style": "document", "location": "http://h/svc", "transport": t, "soap_action": "urn:a", "input": "In", "output": "Out", "encoding": enc}
                 yield {"config": c, "headers": [["X-A", "1"]], "request": r, "response": "<r/>"}
-    for _ in range(n_cases(tier, 200, 3000)):
-        r = dict(rng.choice(reqs))
+    for _ in range(n_cases(tier, 200, 20000)):
+        r = dict(rng.choice(reqs + reqs[:2]))
         r["id"] = rng.choice(["a", "b", "ü", ""])
         yield {"config": rand_config(rng), "headers": rand_headers(rng), "request": r, "response": rng.choice(["<r/>", "", "<Envelope/>"])}
 
@@ -639,7 +822,20 @@ def impl_client_send(a):
             DictDecoder.decode = orig
     if res != ("parsed", a["response"].encode()):
         return {"err": "WRONG-RESULT", "events": rec.events}
-    return ok({"events": rec.events})
+    # shared state: a second send of the same request through the same client makes the same calls
+    first = list(rec.events)
+    try:
+        if r["kind"] == "dict":
+            DictDecoder.decode = decode
+        client.send(obj, {k: v for k, v in a["headers"]})
+    except Exception:  # noqa: BLE001
+        return {"err": "STATEFUL", "events": rec.events}
+    finally:
+        if orig is not None:
+            DictDecoder.decode = orig
+    if rec.events[len(first):] != first:
+        return {"err": "STATEFUL", "events": rec.events}
+    return ok({"events": first})
 
 
 # ---------------------------------------------------------------- transport
@@ -704,12 +900,8 @@ def rpc_unconventional_output(spec, op):
 
 def covered_spec(a, msg):
     spec = a["spec"]
-    if "[lazy]" in msg and any(op_uses_simple_typed_part(spec, op) for op in spec["ops"]):
-        return "C17-lazy-namespace-simple-type"
     if "[rpc-out]" in msg and any(rpc_unconventional_output(spec, op) for op in spec["ops"]):
         return "C17-rpc-output-wrapper-name"
-    if "[fault-header]" in msg and any(op.get("out_headers") for op in spec["ops"]):
-        return "C17-fault-needs-output-header"
     return None
 
 
@@ -802,6 +994,10 @@ def check_mapper(a):
                 return f"{base + sfx}: envelope children {names}"
             if any(x.namespace is not None for x in env.attrs):
                 return f"{base + sfx}: Header/Body not in the envelope namespace"
+            # a request must carry its headers; a response may be a bare fault (Header optional, Body required)
+            want_min = [0 if (direction == "out" and n != "Body") else None for n in names]
+            if [x.restrictions.min_occurs for x in env.attrs] != want_min:
+                return f"{base + sfx}: occurrence of envelope children {[(x.name, x.restrictions.min_occurs) for x in env.attrs]}"
             if hdrs:
                 got = [(x.name, x.namespace) for x in inner["Header"].attrs]
                 if got != hdrs:
@@ -1262,6 +1458,11 @@ CORRS = [
          describe="DefinitionsMapper.map on records of parsed/mutated Definitions"),
     Corr("wsdl.wf", gen_map, impl_wf, compare=compare_wf, classify=lambda a, o: "maps" if o.get("ok") else "fails",
          describe="hypothesis of generation_succeeds (wfDefinitions) vs success of the real mapper: wf implies success"),
+    Corr("wsdl.envmeta", gen_envmeta, impl_envmeta, classify=classify_envmeta,
+         describe="envelope class family (Envelope/Header/Body/Fault/detail) as XmlMeta: mapper class + model of rendering/XmlMetaBuilder vs the real generated classes built by XmlContext"),
+    Corr("wsdl.reqshape", gen_reqshape, impl_reqshape, compare=compare_reqshape,
+         classify=lambda a, o: ("err:" + o["err"]) if "err" in o else classify_envmeta(a, {"ok": [{"id": "/" + i["qname"].rsplit("}", 1)[-1]} for i in a["env"]["inner"]] + [{"id": "/detail"} for i in a["env"]["inner"] for j in i["inner"] if j["inner"]]}),
+         describe="theorem request_document_shape on the real code: element names (full depth) of the document the real XmlSerializer writes for a fully populated envelope instance vs generate+abstract writer on envelopeCtx(model family + real payload classes)"),
     Corr("wsdl.config", gen_config, impl_config,
          classify=lambda a, o: "style@" + "".join(l[0] for l in ("binding", "port", "operation") if any(k.split("}")[-1] == "style" for e in a[l] for k, _ in e["attrs"])) or "style@none",
          describe="attributes()/config precedence, service constants, operation_namespace"),
@@ -1283,15 +1484,6 @@ CORRS = [
 # ======================================================================
 # known findings
 # ======================================================================
-def finding_lazy():
-    s = hand_specs()[2]
-    s = copy.deepcopy(s)
-    s["ops"] = [s["ops"][1]]
-    s["ops"][0]["out"]["name"] = "bResponse"
-    msg = check_e2e({"spec": s})
-    return (bool(msg) and "[lazy]" in msg, msg or "no violation")
-
-
 def finding_rpc_out():
     s = copy.deepcopy(hand_specs()[1])
     s["ops"] = [s["ops"][0]]
@@ -1300,15 +1492,6 @@ def finding_rpc_out():
     return (bool(msg) and "[rpc-out]" in msg, msg or "no violation")
 
 
-def finding_fault_header():
-    s = copy.deepcopy(hand_specs()[2])
-    s["ops"] = [s["ops"][0]]
-    msg = check_e2e({"spec": s})
-    return (bool(msg) and "[fault-header]" in msg, msg or "no violation")
-
-
 FINDINGS = {
-    "C17-fault-needs-output-header": finding_fault_header,
-    "C17-lazy-namespace-simple-type": finding_lazy,
     "C17-rpc-output-wrapper-name": finding_rpc_out,
 }
